@@ -36,15 +36,15 @@ CHECKS['C01'] = dict(engine='enum_face sweep + fz_face (libFuzzer)', level='faul
     text='Every byte/word of every table the engine reads in ~12 seed fonts is set to boundary values (exhaustive over that single-site space), the 722 historical '
          'crashers are replayed, and fz_face explores multi-site corruptions; all face queries exercised on accepted faces under ASan/UBSan/LSan with a hang watchdog.',
     note='Trusted: sanitizers, hook H2 for stage histograms. Multi-megabyte inputs and deep coordinated corruptions beyond what the fuzzer reaches are not explored.', ref='5/C01')
-CHECKS['C02'] = dict(engine='fz_shape (libFuzzer) + hypothesis/grdrv', technique='coverage-guided fuzzing + property-based testing of generated rule programs; sanitizers + H1 loop-bound counter + query-completeness oracle',
-    text='Accepted-but-odd fonts (fuzzed) and wild generated rule programs are shaped with generated texts in all encodings/directions; memory safety by sanitizers, '
+CHECKS['C02'] = dict(engine='fz_shape (libFuzzer) + hypothesis/grdrv + enum_face sweep+shape', technique='coverage-guided fuzzing + property-based testing of generated rule programs + deterministic single-site / coordinated-pair corruption sweep whose accepted fonts are shaped; sanitizers + H1 loop-bound counter + query-completeness oracle',
+    text='Accepted-but-odd fonts (fuzzed, and every boundary corruption of the synthesised seed fonts that the loader accepts) and wild generated rule programs are shaped with generated texts in all encodings/directions, with NULL, unhinted and hinted fonts; memory safety by sanitizers, '
          'bounded work by the H1 iteration counter against the documented bound, growth cap, all queries complete. Exploration level.', note=SHAPE_NOTE, ref='5/C02')
-CHECKS['C03'] = dict(engine='fz_shape (libFuzzer) + hypothesis/grdrv', technique='coverage-guided fuzzing + property-based testing; structural invariant oracle over the public slot API',
+CHECKS['C03'] = dict(engine='fz_shape (libFuzzer) + hypothesis/grdrv + enum_face sweep+shape', technique='coverage-guided fuzzing + property-based testing; structural invariant oracle over the public slot API',
     text='Glyph-stream well-formedness predicates evaluated on every segment produced by fuzzed fonts, wild programs and shipped fonts. Exploration level.', note=SHAPE_NOTE, ref='5/C03-C05')
-CHECKS['C04'] = dict(engine='fz_shape (libFuzzer) + hypothesis/grdrv', technique='coverage-guided fuzzing + property-based testing; attachment-forest invariant oracle',
+CHECKS['C04'] = dict(engine='fz_shape (libFuzzer) + hypothesis/grdrv + enum_face sweep+shape', technique='coverage-guided fuzzing + property-based testing; attachment-forest invariant oracle',
     text='Forest / child-chain / base-chain predicates evaluated on every segment produced by fuzzed fonts, wild programs (attach chains, re-attachment, self/forward '
          'attachment) and shipped fonts. Exploration level.', note=SHAPE_NOTE, ref='5/C03-C05')
-CHECKS['C05'] = dict(engine='fz_shape (libFuzzer) + hypothesis/grdrv', technique='coverage-guided fuzzing + property-based testing; association invariants + independent UTF reference decoder',
+CHECKS['C05'] = dict(engine='fz_shape (libFuzzer) + hypothesis/grdrv + enum_face sweep+shape', technique='coverage-guided fuzzing + property-based testing; association invariants + independent UTF reference decoder',
     text='Character/slot association predicates and an independent UTF decoder evaluated on every segment; known finding KF1 recognised by hook H3 and excluded. Exploration level.',
     note=SHAPE_NOTE, ref='5/C03-C05')
 CHECKS['C06'] = dict(engine='hypothesis/grdrv + gdlmodel', technique='model-based / differential property-based testing: generated GDL-lite programs compiled to fonts vs a reference interpreter',
@@ -75,10 +75,10 @@ CHECKS['C18'] = dict(engine='hypothesis/grdrv (history command)', technique='mod
 CHECKS['C08'] = dict(engine='hypothesis/grdrv (history command)', technique='stateful property-based testing: generated API call histories on one face, differential against a cold face',
     text='Histories of segment creations/destructions, fonts, feature-value objects, label and support queries, justifications and reports on one face (lazy and preloaded); every '
          'probe segment must equal the segment a cold face produces and the face report must never change. Exploration level.',
-    note='Trusted: segment dump (public API, exact floats). Probes use default feature values; fonts are shipped, C06-regime and wild synthesised.', ref='5/C08')
-CHECKS['C10'] = dict(engine='hypothesis/grdrv', technique='differential property-based testing across all 16 (options x table source) configurations',
+    note='Trusted: segment dump (public API, exact floats). Probes use default feature values; fonts are shipped, C06-regime and wild synthesised; gr_font objects are unhinted and hinted (pure fractional advance callback).', ref='5/C08')
+CHECKS['C10'] = dict(engine='hypothesis/grdrv', technique='differential property-based testing across all 16 (options x table source) configurations plus the deprecated seg-cache constructors',
     text='Each generated (font, text, direction, encoding, features) case is shaped under all 8 option values x {callbacks, file}; dumps and face reports must equal the reference configuration exactly. Exploration level.',
-    note='Trusted: dump/report comparison. Fonts are well-formed (shipped or fontsynth).', ref='5/C10')
+    note='Trusted: dump/report comparison. Fonts are well-formed (shipped, fontsynth GDL-lite, or fontsynth with a generated format 4 + format 12 cmap and boundary-code-point texts).', ref='5/C10')
 CHECKS['C15'] = dict(engine='hypothesis/grdrv', technique='metamorphic property-based testing: font = P ppm vs font = NULL scaled by P/upem, stated single-precision tolerance',
     text='Generated cases x ppm in (0,4096]: glyphs/attachments/associations identical to the NULL-font segment; origins and advances within 1e-5 x extent x scale of the linear scaling. Exploration level.',
     note='Trusted: tolerance bound (DESIGN 5/C15); unhinted fonts only.', ref='5/C15')
@@ -99,7 +99,7 @@ CHECKS['C17'] = dict(engine='pbt_zones + pbt_coll (in-process property-based tes
 CHECKS['C09'] = dict(engine='mt_shape (ThreadSanitizer build)', technique='schedule-perturbed concurrent property-based testing under ThreadSanitizer with a sequential differential oracle and a table-callback counter',
     text='Generated multi-threaded workloads (2..8 threads, shared cold preloadAll face and shared font, barrier start, seeded yield/spin perturbation) run under ThreadSanitizer; any race report, any '
          'table callback after construction, or any difference from the single-threaded segment is a violation. Exploration of schedules (sampled, not enumerated).',
-    note='Trusted: ThreadSanitizer happens-before detection over instrumented library + harness code; races inside uninstrumented libc calls would be missed.', ref='5/C09')
+    note='Trusted: ThreadSanitizer happens-before detection over instrumented library + harness code; races inside uninstrumented libc calls would be missed. A race report is confirmed by one reproduction in up to 8 fresh runs of the same workload (schedules differ between runs).', ref='5/C09')
 
 NOT_YET = {'C09': 'check not built yet in this session (TSan harness planned, DESIGN 5/C09); the technique applies at exploration level'}
 
